@@ -338,7 +338,9 @@ class Impl:
         self.workdir = workdir
         self.n = 0
 
-    def run(self, case, order, arg_list):
+    def run(self, case, order, arg_list, history=None):
+        """`history`: list of batches of file operations (see `gen_history`); after every batch the same argument
+        strings are resolved AGAIN on the same live experiment (answer `rounds`)"""
         TU, experiment = _imports()
         self.n += 1
         text, canonical, dowhile = flowir_for(case, order)
@@ -398,30 +400,45 @@ class Impl:
                 for nm in lp['names']:
                     ph = exp.experimentGraph._placeholders.get('stage%d.%s' % (lp['stage'], nm), {})
                     represents[nm] = sorted(ph.get('represents', []))
-            outs = []
-            for args in [canonical] + list(arg_list):
-                spec.setOption('#command.arguments', args)
-                unused, unresolved = [], []
-                try:
-                    out = spec.resolveArguments(unresolved=unresolved, unused=unused, ignoreErrors=True)
-                except Exception as exc:  # noqa
-                    outs.append({"error": type(exc).__name__ + ": " + str(exc)[:200]})
-                    continue
-                names = []
-                for u in unused:
-                    m = re.match(r"Reference (.*?) declared by component", str(u))
-                    names.append(m.group(1) if m else "?")
-                o = {"out": out.replace(loc, "$I"), "unused": names, "unresolved": bool(unresolved)}
-                # another entry point to the same code: the component instance (`Job.resolveArguments`, what the
-                # runtime builds the command line from; it does not tolerate errors — then it has no answer)
-                if job is not None:
+            def resolve_all(arg_strings):
+                outs = []
+                for args in arg_strings:
+                    spec.setOption('#command.arguments', args)
+                    unused, unresolved = [], []
                     try:
-                        o["job"] = job.resolveArguments().replace(loc, "$I")
+                        out = spec.resolveArguments(unresolved=unresolved, unused=unused, ignoreErrors=True)
                     except Exception as exc:  # noqa
-                        o["job_error"] = type(exc).__name__
-                outs.append(o)
+                        outs.append({"error": type(exc).__name__ + ": " + str(exc)[:200]})
+                        continue
+                    names = []
+                    for u in unused:
+                        m = re.match(r"Reference (.*?) declared by component", str(u))
+                        names.append(m.group(1) if m else "?")
+                    o = {"out": out.replace(loc, "$I"), "unused": names, "unresolved": bool(unresolved)}
+                    # another entry point to the same code: the component instance (`Job.resolveArguments`, what the
+                    # runtime builds the command line from; it does not tolerate errors — then it has no answer)
+                    if job is not None:
+                        try:
+                            o["job"] = job.resolveArguments().replace(loc, "$I")
+                        except Exception as exc:  # noqa
+                            o["job_error"] = type(exc).__name__
+                    outs.append(o)
+                return outs
+
+            def target_of(key):
+                if key.startswith('data/'):
+                    return os.path.join(loc, key)
+                m = re.match(r"stage(\d+)\.([^/]+)/(.*)$", key)
+                return os.path.join(inst.workingDirectoryForComponent(int(m.group(1)), m.group(2)), m.group(3))
+
+            outs = resolve_all([canonical] + list(arg_list))
+            rounds = []
+            for batch in (history or []):
+                for op in batch:
+                    apply_file_op(target_of(op["key"]), op)
+                rounds.append(resolve_all(list(arg_list)))
             return {"seen": seen, "canonical": outs[0], "outs": outs[1:], "canonical_args": canonical,
-                    "represents": represents}
+                    "represents": represents, "rounds": rounds}
         finally:
             restore_log()
             os.chdir(cwd)
@@ -776,7 +793,257 @@ CORPUS = [
          refs=["stage0.first:ref", "stage0.second/out.txt:ref", "data/in:output"],
          segs=[["lit", "-a "], ["tok", "stage0.first:ref"], ["lit", " -b="], ["tok", "stage0.second/out.txt:ref"],
                ["lit", " -n "], ["tok", "data/in:output"]]),
+    # one live component, a fixed-width progress file rewritten with the same length and the same modification time,
+    # then with another length, then removed; a second file of another producer with the same file name next to it
+    dict(stage=0, consumer="Monitor", producers=[[0, "Simulate"], [0, "SimulateAgain"]], data=[],
+         files={"stage0.Simulate/progress.txt": "step=0010 energy=-1.50\n", "stage0.SimulateAgain/progress.txt": "step=0001\n"},
+         refs=["Simulate/progress.txt:output", "stage0.SimulateAgain/progress.txt:output", "Simulate:ref"],
+         segs=[["lit", "--progress="], ["tok", "Simulate/progress.txt:output"], ["lit", " --other "],
+               ["tok", "stage0.SimulateAgain/progress.txt:output"], ["lit", " --dir "], ["tok", "Simulate:ref"]],
+         history=[[{"key": "stage0.SimulateAgain/progress.txt", "mode": "write", "c": "step=0002 done\n"}],
+                  [{"key": "stage0.Simulate/progress.txt", "mode": "keep-mtime", "c": "step=0020 energy=-2.75\n"}],
+                  [{"key": "stage0.Simulate/progress.txt", "mode": "replace-keep-mtime", "c": "step=0030 energy=-3.25\n"},
+                   {"key": "stage0.SimulateAgain/progress.txt", "mode": "older-mtime", "c": "step=0003 done\n"}],
+                  [],
+                  [{"key": "stage0.Simulate/progress.txt", "mode": "remove"}],
+                  [{"key": "stage0.Simulate/progress.txt", "mode": "write", "c": "step=0040 energy=-4.00\n"}]]),
 ]
+
+
+# ----------------------------------------------------------------------------------------
+# histories: one live experiment, the referenced files change between two resolutions
+# ----------------------------------------------------------------------------------------
+
+_HTIME = [0.0, 0.0]
+HISTORY_SLUG = "reference-resolved-again-is-not-the-current-contents-of-the-file"
+_SWAP_UNIT = {"x": "y", "y": "x", "\u00b5": "\u00e9", "\u00e9": "\u00b5"}
+
+
+def same_length_other_contents(v, j=1):
+    """different contents with exactly the same number of bytes (a fixed-width counter / progress / energy file that
+    is rewritten): ASCII letters and digits are rotated by j; None when there is nothing to vary"""
+    if isinstance(v, dict):
+        return dict(v, unit=_SWAP_UNIT.get(v.get("unit", "x"), "y"))
+    out = []
+    for ch in v:
+        if "0" <= ch <= "9":
+            out.append(chr(48 + (ord(ch) - 48 + j) % 10))
+        elif "a" <= ch <= "z":
+            out.append(chr(97 + (ord(ch) - 97 + j) % 26))
+        elif "A" <= ch <= "Z":
+            out.append(chr(65 + (ord(ch) - 65 + j) % 26))
+        else:
+            out.append(ch)
+    w = "".join(out)
+    if w == v:
+        for i, ch in enumerate(v):
+            if ch in "\n\r" or ord(ch) > 126:
+                continue
+            w = v[:i] + {" ": "\t", "\t": " ", "_": "-"}.get(ch, "_") + v[i + 1:]
+            break
+    return None if w == v else w
+
+
+def apply_file_op(target, op):
+    """one step of a producer (or of a stage-out / copy tool) on the real file system.  Modes:
+    write: rewrite in place, the file system gives a new modification time; keep-mtime: rewrite in place and leave the
+    modification time the file had (coarse time stamps, cp -p, rsync -t); replace-keep-mtime: the same through a
+    temporary file and an atomic rename (another inode); older-mtime: the file ends up OLDER than it was (restored
+    from a copy, clock skew between hosts); remove: the file is deleted"""
+    mode = op["mode"]
+    if mode == "remove":
+        if os.path.exists(target):
+            os.remove(target)
+        return
+    data = ctext(op["c"]).encode("utf-8")
+    before = os.stat(target) if os.path.exists(target) else None
+    os.makedirs(os.path.dirname(target), exist_ok=True)
+    if mode == "replace-keep-mtime" and before is not None:
+        tmp = target + ".tmp~"
+        with open(tmp, "wb") as fh:
+            fh.write(data)
+        os.utime(tmp, ns=(before.st_atime_ns, before.st_mtime_ns))
+        os.replace(tmp, target)
+        return
+    with open(target, "wb") as fh:
+        fh.write(data)
+    if before is not None:
+        if mode in ("keep-mtime", "replace-keep-mtime"):
+            os.utime(target, ns=(before.st_atime_ns, before.st_mtime_ns))
+        elif mode == "older-mtime":
+            os.utime(target, ns=(before.st_atime_ns, before.st_mtime_ns - 10 * 10 ** 9))
+
+
+def content_keys(case):
+    """keys of the files whose contents are the value of a declared reference"""
+    keys = []
+    for r in my_refs(case):
+        if r['kind'] == 'output':
+            for k in places_of(r, case)[1]:
+                if k not in keys:
+                    keys.append(k)
+    return keys
+
+
+def gen_history(rng, scen, nrounds=None):
+    """batches of file operations on the files the declared :output / :loopoutput references read: mostly rewrites
+    with other contents of the SAME length that keep the modification time, also other lengths, new and older
+    modification times, atomic replacement, removal and (re)creation; [] = nothing changes between two resolutions"""
+    keys = content_keys(scen)
+    if not keys:
+        return []
+    state = dict(scen['files'])
+    for d in scen.get('data', []):
+        state.setdefault('data/' + d, 'x')
+    hist = []
+    nrounds = nrounds or rng.choice([2, 3, 3, 4])
+    for rnd in range(nrounds):
+        batch = []
+        if rnd > 0 and rng.random() < 0.12:
+            hist.append(batch)           # resolved twice without any change
+            continue
+        for key in rng.sample(keys, min(len(keys), rng.choice([1, 1, 2, len(keys)]))):
+            cur = state.get(key)
+            if cur is None:
+                op = {"key": key, "mode": "write", "c": gen_content(rng)}
+            else:
+                same = same_length_other_contents(cur, rng.randint(1, 9))
+                r = rng.random()
+                if same is not None and (r < 0.6 or (rnd == 0 and not batch)):
+                    op = {"key": key, "c": same,
+                          "mode": rng.choice(["keep-mtime", "keep-mtime", "keep-mtime", "replace-keep-mtime",
+                                              "older-mtime", "write"])}
+                elif r < 0.85 or key.startswith("data/"):
+                    other = gen_content(rng)
+                    if isinstance(cur, dict):
+                        other = dict(cur, big=cur["big"] + rng.choice([-1, 1, 9]))
+                    op = {"key": key, "c": other, "mode": rng.choice(["keep-mtime", "write", "older-mtime",
+                                                                      "replace-keep-mtime"])}
+                else:
+                    op = {"key": key, "mode": "remove"}
+            batch.append(op)
+            if op["mode"] == "remove":
+                state.pop(key, None)
+            else:
+                state[key] = op["c"]
+        hist.append(batch)
+    return hist
+
+
+def files_after(files, batch):
+    files = dict(files)
+    for op in batch:
+        if op["mode"] == "remove":
+            files.pop(op["key"], None)
+        else:
+            files[op["key"]] = op["c"]
+    return files
+
+
+def psource_of(ref, case):
+    """the model's source of a reference with the files named by their keys (the model reads its own file system)"""
+    if ref['kind'] != 'output':
+        return source_of(ref, case)
+    _, keys = places_of(ref, case)
+    if ref['method'] == 'loopoutput':
+        if is_looped(ref, case):
+            return {"t": "instFilesAt", "insts": sorted(({"id": i, "p": k} for i, k in zip(instance_ids(ref, case), keys)),
+                                                        key=lambda x: x["id"])}
+        return {"t": "filesAt", "ps": keys}
+    return {"t": "fileAt", "p": keys[0]}
+
+
+def history_request(case, order, arg_list, hist):
+    """the history for the model: symbolic modification times (a counter; kept / older as the mode says)"""
+    refs = my_refs(case, order)
+    clock = [1000]
+    mt = {}
+
+    def tick():
+        clock[0] += 10
+        return clock[0]
+
+    def mop(op):
+        if op["mode"] == "remove":
+            mt.pop(op["key"], None)
+            return {"op": "remove", "p": op["key"]}
+        old = mt.get(op["key"])
+        if old is None or op["mode"] == "write":
+            t = tick()
+        elif op["mode"] == "older-mtime":
+            t = old - 1
+        else:
+            t = old
+        mt[op["key"]] = t
+        return {"op": "write", "p": op["key"], "t": t, "c": ctext(op["c"])}
+
+    init_files = dict(case['files'])
+    for d in case.get('data', []):
+        init_files.setdefault('data/' + d, 'x')
+    init = [mop({"key": k, "mode": "write", "c": v}) for k, v in sorted(init_files.items()) if v is not None]
+    return {"op": "history", "args": list(arg_list),
+            "refs": [dict(text=r['decl'], consumer=case['stage'], direct=r['stage'] is None,
+                          source=psource_of(r, case)) for r in refs],
+            "init": init, "rounds": [[mop(op) for op in batch] for batch in hist]}
+
+
+def check_history(ctx, impl, scen, seg_lists, label, hist=None):
+    """ONE real experiment: the argument strings are resolved, then after every batch of `hist` resolved again on the same
+    live objects.  Every answer must be the one for the contents the files hold at that moment."""
+    base = {k: v for k, v in scen.items() if k not in ('segs', 'history', 'again_after')}
+    hist = hist if hist is not None else scen.get('history')
+    if not hist:
+        return
+    order = list(base['refs'])
+    arg_list = ["".join(s[1] for s in segs) for segs in seg_lists]
+    t_ = time.time()
+    res = impl.run(base, order, arg_list, history=hist)
+    _HTIME[0] += time.time() - t_
+    if "load_error" in res:
+        ctx.fail("valid-workflow-rejected-at-load", dict(base, segs=[]), res)
+        return
+    t_ = time.time()
+    m = ctx.model([history_request(base, order, arg_list, hist)])
+    _HTIME[1] += time.time() - t_
+    states = [base['files']]
+    for batch in hist:
+        states.append(files_after(states[-1], batch))
+    answers = [res["outs"]] + res["rounds"]
+    modes = sorted({"history:" + op["mode"] for batch in hist for op in batch} |
+                   ({"history:no-change"} if any(not b for b in hist) else set()))
+    for ai, (segs, args) in enumerate(zip(seg_lists, arg_list)):
+        case = dict(base, segs=segs, history=hist)
+        ctx.case(case, nontrivial=(len(order) >= 2 and sum(1 for s_ in segs if s_[0] == "tok") >= 2),
+                 tags=[label, "history", "history:rounds=%d" % len(hist)] + modes)
+        for ri, (files, outs) in enumerate(zip(states, answers)):
+            now = dict(base, files=files)
+            out = outs[ai]
+            exp_out, exp_unused, ambiguous = expected(now, args, order)
+            what = None
+            if "error" in out:
+                what, detail = "resolveArguments-raises", out
+            elif not ambiguous:
+                if out["out"] != exp_out:
+                    what, detail = HISTORY_SLUG if ri else "reference-not-replaced-by-its-own-value-or-other-text-changed", \
+                        big_detail(exp_out, out["out"], args)
+                elif "job" in out and out["job"] != exp_out:
+                    what, detail = HISTORY_SLUG if ri else "reference-not-replaced-by-its-own-value-or-other-text-changed", \
+                        dict(big_detail(exp_out, out["job"], args), entry_point="Job.resolveArguments")
+                elif sorted(out["unused"]) != sorted(exp_unused):
+                    what, detail = "wrong-set-of-unused-references", dict(expected=exp_unused, got=out["unused"], args=args)
+            if what:
+                # the history up to the round that went wrong is the failing input
+                ctx.fail(what, dict(case, history=hist[:ri]) if ri else dict(base, segs=segs),
+                         dict(detail, resolution_number=ri + 1,
+                              operations_before_it=[[dict(op, c=(op.get("c") if not isinstance(op.get("c"), str)
+                                                                 else op["c"][:200])) for op in b] for b in hist[:ri]][-1:]))
+                break
+            if m is not None and "error" not in out:
+                mr = m[0]["results"][ai][ri]
+                ctx.compare("resolveArguments after a history of file operations == ArgSubst.resolveRounds",
+                            dict(case, history=hist[:ri]),
+                            dict(out=mr["out"], unused=sorted(mr["unused"]), unresolved=mr["unresolved"]),
+                            dict(out=out["out"], unused=sorted(out["unused"]), unresolved=out["unresolved"]))
 
 
 # ----------------------------------------------------------------------------------------
@@ -998,8 +1265,8 @@ def make_shrinker(ctx, impl):
         return False
 
     def shrink(what, case):
-        if what == "valid-workflow-rejected-at-load":
-            return None
+        if what == "valid-workflow-rejected-at-load" or case.get('history'):
+            return None          # a history is stored as found
         mode[0] = what
         bad = fails(case)
         if not bad:
@@ -1070,7 +1337,11 @@ def run(ctx):
                 "white-space only / missing / look like references / are long (size classes 4 KiB, 64 KiB +-1, 96 KiB, "
                 "128 KiB +-1, 200 KB for :output of file, stdout, direct file and :loopoutput), argument string built from separators, noise "
                 "text and reference tokens); every declaration order (all permutations of <= 4 references) is built as its "
-                "own real Experiment; non-trivial = >= 2 declared references and >= 2 reference tokens in the argument "
+                "own real Experiment; every generated scenario is additionally built as ONE live Experiment on which the argument "
+                "strings are resolved, then 2-4 batches of file operations on the files the :output / :loopoutput references "
+                "read are applied (other contents of the same byte length with the modification time kept in place / kept "
+                "through an atomic rename / set older / renewed, other lengths, removal, creation, no change), resolving "
+                "again through both entry points after every batch; non-trivial = >= 2 declared references and >= 2 reference tokens in the argument "
                 "string; distinct by canonical JSON of the case")
     ctx.assumptions = [
         "argument strings and file contents contain no '%' and no '[': the final FlowIR.fill_in (variable interpolation, "
@@ -1093,6 +1364,10 @@ def run(ctx):
         "(it does not tolerate missing files)",
         "some scenarios are run a second time after two other scenarios that use the same producer / consumer names in other "
         "roles: the answers must be identical (process-level state)",
+        "histories: a reference resolved again on the same live component after the referenced file was rewritten, removed "
+        "or created must have the value of the contents the file holds at that moment (\"\" while it does not exist), "
+        "whatever its length and modification time are and whatever an earlier resolution returned; modification times "
+        "are set with os.utime (what cp -p / rsync -t / a coarse-grained file system leave behind)",
         "argument strings other than the canonical one are installed with setOption('#command.arguments') on the loaded "
         "experiment (the loader refuses undeclared reference-like text, which the property wants left untouched)",
     ]
@@ -1118,7 +1393,10 @@ def run(ctx):
                     doc = json.load(open(os.path.join(cdir, fn)))
                     corpus.append(doc.get("input", doc))
         for c in corpus:
-            complete_all &= check_scenario(ctx, impl, c, [c['segs']], 24, "corpus")
+            complete_all &= check_scenario(ctx, impl, {k_: v for k_, v in c.items() if k_ != 'history'}, [c['segs']], 24,
+                                           "corpus")
+            if c.get('history'):
+                check_history(ctx, impl, c, [c['segs']], "corpus")
         nscen = 28 if quick else 260
         nargs = 6 if quick else 10
         budget = 62 if quick else 640
@@ -1130,6 +1408,7 @@ def run(ctx):
                 scen['log'] = {"root": rng.choice([10, 13, 14]), "loggers": {}}
             seg_lists = [gen_segs(rng, scen, st) for st in ("each-once", rng.choice(["repeat", "abs", "noisy"]))]
             complete_all &= check_scenario(ctx, impl, scen, seg_lists, 3 if quick else 6, "generated-many-iterations")
+            check_history(ctx, impl, scen, seg_lists, "generated-many-iterations", gen_history(rng, scen))
         if not quick:
             scen = many_iterations_scenario(rng, 0, iters=101)
             complete_all &= check_scenario(ctx, impl, scen, [gen_segs(rng, scen, "each-once")], 2, "generated-many-iterations")
@@ -1148,6 +1427,9 @@ def run(ctx):
                 scen['again_after'] = [dict(r, segs=[]) for r in recent[-2:]]
             complete_all &= check_scenario(ctx, impl, scen, seg_lists,
                                            24 if not scen.get('loop') or scen['loop']['iters'] <= 3 else 4, "generated")
+            # the same scenario as ONE live experiment whose referenced files change between resolutions
+            for _ in range(1 if quick else 2):
+                check_history(ctx, impl, scen, seg_lists[:3], "generated", gen_history(rng, scen))
             recent.append({k_: v for k_, v in scen.items() if k_ != 'again_after'})
         # long contents (few cases: every declaration order is its own experiment and the strings are long)
         nbig = 8 if quick else 36
@@ -1155,8 +1437,11 @@ def run(ctx):
             scen = big_scenario(rng, i)
             seg_lists = [gen_segs(rng, scen, st) for st in ("each-once", rng.choice(["repeat", "abs", "noisy"]))]
             complete_all &= check_scenario(ctx, impl, scen, seg_lists, 6, "generated-long-contents")
+            if i % 4 == 1:
+                check_history(ctx, impl, scen, seg_lists[:1], "generated-long-contents", gen_history(rng, scen, 2))
         ctx.extra["declaration_orders_exhaustive"] = bool(complete_all)
         ctx.extra["experiments_built"] = impl.n
+        ctx.extra["history_seconds_impl_model"] = [round(x, 1) for x in _HTIME]
     finally:
         shutil.rmtree(tmp, ignore_errors=True)
 
@@ -1177,6 +1462,8 @@ def replay(ctx, doc):
         if not case.get('segs'):
             case = dict(case, segs=[["lit", "hi"]])
         # the stored declaration order first, then every other order
-        check_scenario(ctx, impl, case, [case['segs']], 24, "replay")
+        check_scenario(ctx, impl, {k: v for k, v in case.items() if k != 'history'}, [case['segs']], 24, "replay")
+        if case.get('history'):
+            check_history(ctx, impl, case, [case['segs']], "replay")
     finally:
         shutil.rmtree(tmp, ignore_errors=True)
